@@ -127,6 +127,10 @@ func (fr *Frame) appendCall(x *ssa.Call, s, t Val, st *State, rch Term) Val {
 	// Go: append(nil, empty...) stays nil; append of nothing in place keeps s
 	arr := vc.define("aparr", "Int", ite(inPlace, s.C[0], fresh))
 	cp := vc.define("apcp", "Int", ite(inPlace, s.C[2], newCap))
+	// obligations after an append may be split on "in place" vs "reallocated"
+	if len(vc.caseGroups) < 6 {
+		vc.caseGroups = append(vc.caseGroups, caseGroup{conds: []Term{inPlace, not(inPlace)}, nAssert: len(vc.asserts)})
+	}
 	// contents
 	// 1. reallocation copies the old elements (reads from the old state)
 	if n, ok := litInt(s.C[1]); ok && n == 0 {
@@ -598,4 +602,74 @@ func init() {
 	}
 	intrinsics["unicode/utf8.DecodeRuneInString"] = decode
 	intrinsics["unicode/utf8.DecodeRune"] = decode
+}
+
+// more std intrinsics used by the JSON parser (exact definitions where the
+// documentation gives one, otherwise assumed contracts)
+func init() {
+	intrinsics["unicode.IsSpace"] = func(fr *Frame, x *ssa.Call, args []Val, st *State, rch Term) Val {
+		r := args[0].t()
+		vc := fr.vc
+		f := vc.declareFun("unicode.IsSpace.wide", []string{"Int"}, "Bool")
+		latin := or(eq(r, "9"), eq(r, "10"), eq(r, "11"), eq(r, "12"), eq(r, "13"), eq(r, "32"), eq(r, "133"), eq(r, "160"))
+		return Val{T: x.Type(), C: []Term{ite(sx("<", r, "256"), latin, sx(f, r))}}
+	}
+	intrinsics["unicode/utf16.IsSurrogate"] = func(fr *Frame, x *ssa.Call, args []Val, st *State, rch Term) Val {
+		r := args[0].t()
+		return Val{T: x.Type(), C: []Term{and(sx("<=", "55296", r), sx("<", r, "57344"))}}
+	}
+	intrinsics["unicode/utf16.DecodeRune"] = func(fr *Frame, x *ssa.Call, args []Val, st *State, rch Term) Val {
+		r1, r2 := args[0].t(), args[1].t()
+		ok := and(sx("<=", "55296", r1), sx("<", r1, "56320"), sx("<=", "56320", r2), sx("<", r2, "57344"))
+		v := sx("+", sx("*", "1024", sx("-", r1, "55296")), sx("-", r2, "56320"), "65536")
+		return Val{T: x.Type(), C: []Term{fr.vc.define("utf16dec", "Int", ite(ok, v, "65533"))}}
+	}
+	intrinsics["unicode/utf8.EncodeRune"] = func(fr *Frame, x *ssa.Call, args []Val, st *State, rch Term) Val {
+		vc := fr.vc
+		p, r := args[0], args[1].t()
+		n := vc.define("runelen", "Int", ite(and(sx("<=", "0", r), sx("<", r, "128")), "1",
+			ite(and(sx("<=", "0", r), sx("<", r, "2048")), "2",
+				ite(or(sx("<", r, "0"), sx(">", r, "1114111"), and(sx("<=", "55296", r), sx("<", r, "57344"))), "3",
+					ite(sx("<", r, "65536"), "3", "4")))))
+		fr.safety("bounds", x, rch, sx("<=", n, p.C[1]))
+		vc.havocElems(types.Typ[types.Uint8], p.C[0], n, st, fr)
+		return Val{T: x.Type(), C: []Term{n}}
+	}
+	m := newModset()
+	m.fams["E$uint8"] = "Int"
+	intrinsicMods["unicode/utf8.EncodeRune"] = m
+	intrinsics["strconv.ParseFloat"] = func(fr *Frame, x *ssa.Call, args []Val, st *State, rch Term) Val {
+		vc := fr.vc
+		f := vc.fresh("parsefloat", "Int")
+		vc.assume(and(sx("<=", "0", f), sx("<", f, pow2T(64))))
+		e := fr.freshError(fr.prefix + "." + x.Name() + ".err")
+		vc.assume(not(eq(e.C[1], "(- 77)"))) // a *strconv.NumError, never io.EOF
+		return Val{T: x.Type(), C: []Term{f, e.C[0], e.C[1]}}
+	}
+	intrinsics["strconv.ParseUint"] = func(fr *Frame, x *ssa.Call, args []Val, st *State, rch Term) Val {
+		vc := fr.vc
+		v := vc.fresh("parseuint", "Int")
+		e := fr.freshError(fr.prefix + "." + x.Name() + ".err")
+		vc.assume(not(eq(e.C[1], "(- 77)"))) // a *strconv.NumError, never io.EOF
+		vc.assume(and(sx("<=", "0", v), sx("<", v, pow2T(64))))
+		// base 16, at most 4 digits: the value is below 2^16
+		if base, ok := litInt(args[1].t()); ok && base == 16 {
+			vc.assume(implies(and(eq(e.C[0], "0"), sx("<=", args[0].C[1], "4")), sx("<", v, "65536")))
+		}
+		return Val{T: x.Type(), C: []Term{v, e.C[0], e.C[1]}}
+	}
+	// bytes.HasPrefix / bytes.Equal: content comparison
+	intrinsics["bytes.HasPrefix"] = func(fr *Frame, x *ssa.Call, args []Val, st *State, rch Term) Val {
+		vc := fr.vc
+		s, p := args[0], args[1]
+		vc.regFam("E$uint8", "Int")
+		h := vc.get(st, "E$uint8")
+		r := vc.fresh("hasprefix", "Bool")
+		vc.nfresh++
+		k := fmt.Sprintf("|k!%d|", vc.nfresh)
+		body := fmt.Sprintf("(forall ((%s Int)) (! (=> (and (<= 0 %s) (< %s %s)) (= (select %s %s) (select %s %s))) :pattern ((select %s %s))))",
+			k, k, k, p.C[1], h, adr(s.C[0], k), h, adr(p.C[0], k), h, adr(p.C[0], k))
+		vc.assume(eq(r, and(sx(">=", s.C[1], p.C[1]), body)))
+		return Val{T: x.Type(), C: []Term{r}}
+	}
 }
